@@ -61,7 +61,7 @@ extern crate alloc;
 use alloc::{borrow::ToOwned, format, string::String};
 use core::{
     cmp::Ordering,
-    fmt,
+    fmt::{self, Write},
     ops::{Add, Div, Mul, Sub},
 };
 
@@ -307,7 +307,43 @@ pub trait Quantity: Copy + Sized + Mul<AmountT> {
             } else {
                 tmp = format!("{} {}", abs_amnt, self.unit());
             }
-            form.pad_integral(amnt_non_neg, "", &tmp)
+            // `Formatter::pad_integral` measures the width of `tmp` in bytes,
+            // which is wrong for unit symbols outside ASCII (like 'µm'), so
+            // sign, fill and alignment are applied here, counting characters.
+            let sign = if !amnt_non_neg {
+                "-"
+            } else if form.sign_plus() {
+                "+"
+            } else {
+                ""
+            };
+            let len = tmp.chars().count() + sign.len();
+            let pad = match form.width() {
+                Some(width) if width > len => width - len,
+                _ => 0,
+            };
+            if form.sign_aware_zero_pad() {
+                form.write_str(sign)?;
+                for _ in 0..pad {
+                    form.write_char('0')?;
+                }
+                return form.write_str(&tmp);
+            }
+            let (pre, post) = match form.align() {
+                Some(fmt::Alignment::Left) => (0, pad),
+                Some(fmt::Alignment::Center) => (pad / 2, (pad + 1) / 2),
+                _ => (pad, 0),
+            };
+            let fill = form.fill();
+            for _ in 0..pre {
+                form.write_char(fill)?;
+            }
+            form.write_str(sign)?;
+            form.write_str(&tmp)?;
+            for _ in 0..post {
+                form.write_char(fill)?;
+            }
+            Ok(())
         }
     }
 }
